@@ -176,13 +176,14 @@ prop("C12", "c12",
      "verbose, otherwise its content type is one of the supported types the Accept header admits with maximal quality and the "
      "body parses as that type. Non-trivial: depth >= 2, a foreign error, or a status override; distinct by (error, overrides, Accept).",
      [dict(run="^TestInjectedErrorsMapToTheirClass$", quick=2500, thorough=120000, shards_thorough=10),
-      dict(run="^TestRedirectAndChallengeHandlers$", quick=1500, thorough=18000, shards_thorough=6)],
+      dict(run="^TestRedirectAndChallengeHandlers$", quick=1500, thorough=18000, shards_thorough=6),
+      dict(run="^TestConcurrentFailuresAreAnsweredEachOnItsOwn$", quick=1, thorough=1, race=True)],
      ["values mixing several heimdall kinds: only (1), (3), (4) are asserted", "an Accept header admitting no supported type is don't-care",
       "generated Accept headers avoid overlapping ranges with conflicting weights (library-specific tie breaking)"],
      level="Randomised generated search over error values x overrides x Accept headers on the three assembled services with a "
            "reference classification and a differential between entry points; bounded exploration.",
      note="Trusted: the probe mechanism hands the generated error value to heimdall unchanged.",
-     technique="property-based testing: error grammar + reference status table + differential across entry points")
+     technique="property-based testing: error grammar + reference status table + differential across entry points + -race stress unit with an invariant over every answer (its own class and content type)")
 
 prop("C13", "c13",
      "A logical request (method, scheme, host, path /svc/:id/*rest with percent-encoded captured segments, query, a custom "
@@ -451,13 +452,13 @@ prop("C20", "c20",
 # What the rounds of independently seeded changes (seeded/, DESIGN.md section 11) added to the generators and oracles; the
 # texts above describe the checks as they were designed.
 ADDED = {
-    "C01": "Also generated: the level heimdall logs on (disabled, trace, debug, info, error); verbose error answers with Accept headers.",
+    "C01": "Also generated: the level heimdall logs on (disabled, trace, debug, info, error); verbose error answers with Accept headers. The status the decision service is configured to answer with when it allows a request (accepted code 202 / 204).",
     "C02": "Also: literal segments which are nothing but an escaped character (\\:, \\*, **, :*), literal backslash segments (tree level), a bare * as free "
            "wildcard; rules with scheme, host and methods conditions at once and path_params per route; a third repository which arrives at every rule set "
            "through an update; rules of one rule set sharing an expression with different backtracking settings (then repositories are only compared with "
            "each other); a refused rule set before the lookups. Wildcard values holding an encoded percent sign, with path_params conditions on the decoded value. Encoded slashes inside of wildcard values (every rule lets them pass).",
     "C03": "Also: method lists which leave no method (must be refused or match nothing), sub-delims and marker-like texts as segments, encoded slashes in "
-           "both hex cases within one value, the bare * wildcard (not exposed).",
+           "both hex cases within one value, the bare * wildcard (not exposed). Exact expressions which differ from the value in the case of their letters only.",
     "C04": "Also: jwt / oauth2_introspection authenticators with an issuer-templated metadata endpoint, tokens without issuer or key id, credentials with white "
            "space inside, algorithm confusion tokens, the scheme in other cases. Bearer tokens travelling as query parameter (also with the name of the parameter spelled with an escape sequence) and as body parameter. Bodies with GET and JSON bodies as carriers of a token. An identity endpoint which refuses the session with 400, 403, 404 or 422.",
     "C05": "Also: scope matching strategies with near-miss scopes, issuer-templated key set endpoints, issuers which read almost like a trusted one, nbf / "
@@ -468,13 +469,13 @@ ADDED = {
     "C08": "Also: combined escapes, characters Go re-escapes ({ | ^) and raw bytes beyond ASCII, mixed settings with path_params, a second encoded slash in "
            "the other hex case. Rules which rewrite what is forwarded (scheme only, added path prefix), encoded slash at the very end of the path. Encoded percent signs in front of hex digits. Rules which strip a path prefix (the stripped and the unstripped path are both admitted, the encoded slash has to stay).",
     "C09": "Also: extension methods, request-target forms of X-Forwarded-Uri, scoped IPv6 peers with link-local trusted entries, Forwarded elements without "
-           "for / with For / on two lines, an empty first header line, a Host header with ; , = (nothing but the peer may be named as client address upstream). The same address twice in a row in the chain of hops, and as last hop the peer itself. Relatives of the forwarded headers which heimdall does not document (X-Forwarded-Scheme, X-Real-Ip, X-Original-Url, ...) change nothing for anybody. Commas in X-Forwarded-Uri. Hosts with the default port of some scheme.",
+           "for / with For / on two lines, an empty first header line, a Host header with ; , = (nothing but the peer may be named as client address upstream). The same address twice in a row in the chain of hops, and as last hop the peer itself. Relatives of the forwarded headers which heimdall does not document (X-Forwarded-Scheme, X-Real-Ip, X-Original-Url, ...) change nothing for anybody. Commas in X-Forwarded-Uri. Hosts with the default port of some scheme. Entries of trusted_proxies which contain each other (a range and a narrower range or an address with the same base), in either order, with a peer of the wider one only.",
     "C10": "Also: rule-level TTLs across rules (what a rule takes from the cache is not older than its own TTL), token lifetimes of zero and less, invalid "
            "Expires values, custom claims naming exp. The default lifetime of an endpoint's HTTP cache across two catalogue mechanisms calling the same url. Cache-Control directives on several header lines, Last-Modified next to explicit lifetimes, Age values up to beyond what a duration holds. Sessions of the generic authenticator which ended at, just before or just after the start of the epoch. A sequence over time on the recording cache's clock: a hit within the lifetime, then a request after the lifetime counted from the first store has to reach the remote side.",
     "C11": "Also: the endpoint-level HTTP cache (POST, and GET with Vary), name lists shifted against the payload, overridden names of forwarded headers / "
            "cookies, outputs of earlier steps in endpoint templates and in jwt claims (token reuse), a second catalogue entry validating the session lifetime, a key "
            "store replaced under the same key id between the executions, jwt authenticators with different trust stores. Two catalogue entries whose endpoint settings are shifted across a boundary (header name/value, basic auth user/password, api key name/value), a second generic authenticator sending another payload, answers in YAML with expressions calculating with a number, subjects with the same id whose attributes differ in the ends of nested elements or the type of a value. Vary on several header lines with Authorization first; url and Authorization header of an endpoint shifted across their boundary with only the HTTP cache in use. Values rendered from request bytes which are no valid UTF-8; one jwt authenticator for two issuers told apart by a rendered endpoint header. A second introspection authenticator asking the same endpoint for another realm (header named in lower case). YAML answers under every content type this format goes by, with and without parameters. Catalogue entries differing in the header or scheme under which a client-credentials token is sent to the endpoint.",
-    "C12": "Also: panicking mechanisms, more foreign causes (context.Canceled, url.Error wrapping it, net / os errors, JSON syntax error, gRPC status). Chains of three with a nested chain (with and without context) in the middle and the kind at the end. Relative references as redirect targets.",
+    "C12": "Also: panicking mechanisms, more foreign causes (context.Canceled, url.Error wrapping it, net / os errors, JSON syntax error, gRPC status). Chains of three with a nested chain (with and without context) in the middle and the kind at the end. Relative references as redirect targets. A unit under the race detector: requests failing the same way and asking for the details in different content types, from 12 goroutines on every entry point - each answer carries its own details in a type its own request admits.",
     "C13": "Also: the check request as Envoy's API describes it (request target incl. query as path, pseudo headers), the decision service asked the way a gateway "
            "does (X-Forwarded-* from a trusted proxy), extension methods, chunked bodies, duplicate / quoted cookies, content type spellings, raw path and URL "
            "string and Host header in the view, empty-valued and odd pipeline headers / cookies, characters not valid in an escaped path. Queries holding a question mark, a slash, semicolons, empty members. Cookies next to elements of the Cookie header which are no well-formed cookies.",
@@ -483,7 +484,7 @@ ADDED = {
            "the same rules from 12 goroutines on every entry point; none of the former is answered positively. Pipelines put together stage by stage from a rule and the default rule.",
     "C17": "Also: a unit in which later pipeline steps change the subject they were given (dict functions of the template engine): subjects created afterwards by "
            "the catalogue entry, its variants and other authenticators are those of a world in which nobody did. Pairs of overrides which read the same once quotes and the ends of elements are dropped. Executions which fail for lack of credentials in the race unit; an expression using networks() with an argument which changes from request to request, asked from 8 goroutines.",
-    "C14": "Also: generated on_error pipelines with repeated handlers and overrides, overrides which are not a mapping. A rule for a deeper path loaded before the rule under test. The rule set arriving as an update of a version which differs in the rule's on_error list only. A concurrent unit under the race detector: rules inheriting an authorization stage of 1 to 7 steps with finalizers of their own, asked from 9 goroutines.",
+    "C14": "Also: generated on_error pipelines with repeated handlers and overrides, overrides which are not a mapping. A rule for a deeper path loaded before the rule under test. The rule set arriving as an update of a version which differs in the rule's on_error list only. A concurrent unit under the race detector: rules inheriting an authorization stage of 1 to 7 steps with finalizers of their own, asked from 9 goroutines. A rule which writes its error pipeline down as an empty list (on_error: []) inherits the stage like one without the key.",
     "C15": "Also: allow_encoded_slashes on (listed finding), add_path_prefix with characters not valid in a path, extension and mixed-case methods, IPv6 peers in "
            "Forwarded (RFC 7239 form), unparsable queries, an empty pipeline header. A path which is nothing but the stripped prefix, X-Forwarded-Host / -Proto produced by the pipeline against the same headers of a trusted client. A Forwarded header on two lines. A trusted gateway whose request line is not the original target (X-Forwarded-Uri names it, with and without a query).",
     "C16": "Also: every signer of a multi-signer setup, tokens handed out after reloads, a token cache with a rule using the finalizer as in the catalogue, empty subject ids. A certificate of the active key which runs out while heimdall serves requests (unit with real waiting). Signer names with white space; a unit with two signers whose key id, algorithm and name read alike when written one after another (token cache in use). The scheduled unit also runs with a token cache and asks for one more token after the threads are done. A unit with certificate chains made at run time, whose certificate of the key runs out before or after the ones of its authorities, and with collections of the certificate expiry metrics (which read the chain) between the requests: the published key set stays the same and fits its keys.",
